@@ -11,7 +11,7 @@ two sided: what may be reported / what must be found).
 import numpy as np
 
 from ..models.peaks import Oracle
-from .. import readers
+from .. import gen, readers
 
 PROPERTY = "C08"
 NUM = 8
@@ -337,6 +337,8 @@ def fam_traditional(ctx, rng):
             r, rk = hist[-1]
         hist.append((r, rk))
         kw = {} if rng.random() < 0.3 else None
+        if rng.random() < 0.15:
+            ctx.count("objects_recreated_by_" + gen.recreate_in_place(rng, h))      # the history continues on a copy / unpickled object
         h.update_peaks_bounded(search_range_in_hz=r, find_peaks_kwargs=kw)
         for i in range(m):
             judge_cached(ctx, f"window {i} after update", f, amp[i], tuple(r), h._main_peak_frq[i], h._main_peak_amp[i], None)
@@ -375,6 +377,8 @@ def fam_azimuthal(ctx, rng):
     for _ in range(int(rng.integers(1, 6))):
         r, rk = gen_range(rng, f)
         hist.append((r, rk))
+        if rng.random() < 0.15:
+            ctx.count("objects_recreated_by_" + gen.recreate_in_place(rng, az))
         az.update_peaks_bounded(search_range_in_hz=r, find_peaks_kwargs=None)
         for a, h in enumerate(az.hvsrs):
             for i in range(h.n_curves):
